@@ -479,3 +479,94 @@ Proof.
   - intros H. eapply Forall_impl; [|exact I2]. cbn beta. intros; lra.
   - intros H. rewrite Forall_forall in H. apply H. exact I1.
 Qed.
+
+(* ------------------------------------------------------------------------------------ *)
+(** * Part D : the two-field Z2 x Z2 family of the harness, and rotated field bases *)
+
+Section TwoField.
+(** V = mua/2 a^2 + la/4 a^4 + mub/2 b^2 + lb/4 b^4 + lab/4 a^2 b^2 (+ field-independent
+    terms) at one temperature; mua, mub are the temperature-dependent mass parameters *)
+Variables mua mub la lb lab : R.
+Hypothesis Hlb : 0 < lb.
+
+Definition zga (a b : R) := mua * a + la * a ^ 3 + lab / 2 * a * b ^ 2.
+Definition zgb (a b : R) := mub * b + lb * b ^ 3 + lab / 2 * a ^ 2 * b.
+Definition zHaa (a b : R) := mua + 3 * la * a ^ 2 + lab / 2 * b ^ 2.
+Definition zHab (a b : R) := lab * a * b.
+Definition zHbb (a b : R) := mub + 3 * lb * b ^ 2 + lab / 2 * a ^ 2.
+
+(** the phase (0, b) with lb b^2 = -mub: critical; a minimum exactly when the curvature in
+    the a direction, mua - lab mub / (2 lb), and -2 mub are both positive *)
+Theorem z2_phase_B b : lb * b ^ 2 = - mub ->
+  zga 0 b = 0 /\ zgb 0 b = 0 /\ zHab 0 b = 0 /\
+  zHaa 0 b = mua - lab * mub / (2 * lb) /\ zHbb 0 b = - 2 * mub /\
+  (posdef2 (zHaa 0 b) (zHab 0 b) (zHbb 0 b) <->
+   0 < mua - lab * mub / (2 * lb) /\ 0 < - mub).
+Proof.
+  intros Hb. unfold zga, zgb, zHaa, zHab, zHbb.
+  assert (Eb : b ^ 2 = - mub / lb) by (field_simplify_eq; lra).
+  assert (E1 : mua + 3 * la * 0 ^ 2 + lab / 2 * b ^ 2 = mua - lab * mub / (2 * lb)).
+  { rewrite Eb. field. lra. }
+  assert (E2 : mub + 3 * lb * b ^ 2 + lab / 2 * 0 ^ 2 = - 2 * mub) by nra.
+  split; [ring|]. split; [|split; [ring|split; [exact E1|split; [exact E2|split]]]].
+  - replace (mub * b + lb * b ^ 3 + lab / 2 * 0 ^ 2 * b) with (b * (mub + lb * b ^ 2)) by ring.
+    rewrite Hb. ring.
+  - rewrite E1, E2. replace (lab * 0 * b) with 0 by ring. intros P.
+    apply posdef2_iff in P. destruct P as [P1 P2]. split; [exact P1|].
+    replace (0 ^ 2) with 0 in P2 by ring.
+    assert (0 < (mua - lab * mub / (2 * lb)) * (- 2 * mub)) by lra.
+    assert (0 < - 2 * mub). { apply Rmult_lt_reg_l with (mua - lab * mub / (2 * lb)); lra. }
+    lra.
+  - rewrite E1, E2. replace (lab * 0 * b) with 0 by ring. intros [P1 P2].
+    apply posdef2_iff. split; [exact P1|]. replace (0 ^ 2) with 0 by ring.
+    apply Rmult_lt_0_compat; lra.
+Qed.
+End TwoField.
+
+(** positive definiteness does not depend on the field basis: H' = R H R^T with R a rotation
+    (so the spinodal of a phase is the same temperature in every rotated basis, while the
+    diagonal entries of H' are not the eigenvalues) *)
+Theorem posdef2_rotation a b c co si : co ^ 2 + si ^ 2 = 1 ->
+  let a' := co ^ 2 * a - 2 * co * si * b + si ^ 2 * c in
+  let b' := co * si * (a - c) + (co ^ 2 - si ^ 2) * b in
+  let c' := si ^ 2 * a + 2 * co * si * b + co ^ 2 * c in
+  posdef2 a' b' c' <-> posdef2 a b c.
+Proof.
+  intros Hr a' b' c'.
+  assert (Q : forall x y, a' * x ^ 2 + 2 * b' * x * y + c' * y ^ 2 =
+              a * (co * x + si * y) ^ 2 + 2 * b * (co * x + si * y) * (- si * x + co * y)
+              + c * (- si * x + co * y) ^ 2).
+  { intros. unfold a', b', c'. ring. }
+  split; intros P x y Hxy.
+  - (* (x,y) = rotation of (u,v) with u = co x - si y, v = si x + co y *)
+    specialize (P (co * x - si * y) (si * x + co * y)).
+    rewrite Q in P.
+    replace (co * (co * x - si * y) + si * (si * x + co * y)) with ((co ^ 2 + si ^ 2) * x) in P by ring.
+    replace (- si * (co * x - si * y) + co * (si * x + co * y)) with ((co ^ 2 + si ^ 2) * y) in P by ring.
+    rewrite Hr, !Rmult_1_l in P. apply P.
+    destruct (Req_dec (co * x - si * y) 0) as [E1|E1]; [|left; exact E1].
+    destruct (Req_dec (si * x + co * y) 0) as [E2|E2]; [|right; exact E2].
+    exfalso.
+    assert (X0 : x = 0).
+    { replace x with ((co ^ 2 + si ^ 2) * x) by (rewrite Hr; ring).
+      replace ((co ^ 2 + si ^ 2) * x) with (co * (co * x - si * y) + si * (si * x + co * y)) by ring.
+      rewrite E1, E2. ring. }
+    assert (Y0 : y = 0).
+    { replace y with ((co ^ 2 + si ^ 2) * y) by (rewrite Hr; ring).
+      replace ((co ^ 2 + si ^ 2) * y) with (- si * (co * x - si * y) + co * (si * x + co * y)) by ring.
+      rewrite E1, E2. ring. }
+    destruct Hxy; contradiction.
+  - rewrite Q. apply P.
+    destruct (Req_dec (co * x + si * y) 0) as [E1|E1]; [|left; exact E1].
+    destruct (Req_dec (- si * x + co * y) 0) as [E2|E2]; [|right; exact E2].
+    exfalso.
+    assert (X0 : x = 0).
+    { replace x with ((co ^ 2 + si ^ 2) * x) by (rewrite Hr; ring).
+      replace ((co ^ 2 + si ^ 2) * x) with (co * (co * x + si * y) - si * (- si * x + co * y)) by ring.
+      rewrite E1, E2. ring. }
+    assert (Y0 : y = 0).
+    { replace y with ((co ^ 2 + si ^ 2) * y) by (rewrite Hr; ring).
+      replace ((co ^ 2 + si ^ 2) * y) with (si * (co * x + si * y) + co * (- si * x + co * y)) by ring.
+      rewrite E1, E2. ring. }
+    destruct Hxy; contradiction.
+Qed.
